@@ -248,6 +248,74 @@ def write_tiling(fb, fn):
     return out
 
 
+def rule_reader_exact(fb, res):
+    from rules.c03 import buffer_end_locals
+    from rules.decoder_rules import _linear
+    n = 0
+    for g in sorted(fb.all_functions(), key=lambda f: f.name):
+        if not g.rec or not g.cfg_raw or not g.params or g.params[0]["t"].get("k") != "ptr":
+            continue
+        if not (g.rec.endswith("CaptureModulePayload") or g.rec.endswith("InterfacePayload")) or g.rec.startswith("TECMP"):
+            continue
+        ends = buffer_end_locals(g)
+        if not ends:
+            continue
+        pdecl = g.params[0]["decl"]
+        # the value read from the length field: locals initialised from a dereference of the pointer
+        lens = set()
+        for d, es in local_defs(g).items():
+            if any(x.get("k") == "un" and x.get("op") == "*" and pdecl in reads(x) for e in es for x in walk(e)) and len(es) == 1:
+                lens.add(d)
+        cfg = g.cfg
+        advances = [x for x in g.nodes() if x.get("k") == "cassign" and x.get("op") == "+" and lvalue_root(x["l"]) == pdecl]
+
+        def syms(x):
+            if x.get("k") == "bin" and x.get("op") == "-" and strip_all_casts(x["l"]).get("decl") in ends and strip_all_casts(x["r"]).get("decl") == pdecl:
+                return "R"
+            if x.get("k") == "ref" and x.get("decl") in lens:
+                return "L"
+            return None
+        for c in g.nodes():
+            if c.get("k") != "bin" or c.get("op") not in ("<", "<=", ">", ">="):
+                continue
+            l = strip_all_casts(facts.expand(g, c["l"], keep=tuple(ends | lens)))
+            r = strip_all_casts(facts.expand(g, c["r"], keep=tuple(ends | lens)))
+            if not any(syms(x) == "R" for e in (l, r) for x in walk(e)):
+                continue
+            n += 1
+            key = "%s:bound@%s" % (g.name.replace(NS, ""), (c.get("loc") or "").split(":", 1)[-1])
+            fl, fr = _linear(g, l, syms), _linear(g, r, syms)
+            ok = False
+            why = "the bound `%s` is not a linear comparison of the remaining bytes with the announced length" % canon(c)[:120]
+            if fl is not None and fr is not None:
+                d = dict(fl)
+                for k2, v in fr.items():
+                    d[k2] = d.get(k2, 0) - v
+                # orient as  R - (...) >= 0  /  R - (...) < 0
+                if d.get("R", 0) < 0:
+                    d = {k2: -v for k2, v in d.items()}
+                    op = {"<": ">", "<=": ">=", ">": "<", ">=": "<="}[c["op"]]
+                else:
+                    op = c["op"]
+                # strict forms: R - X > 0  <=>  R - X - 1 >= 0 ; R - X <= 0  <=> not (R - X - 1 >= 0)
+                if op in (">", "<="):
+                    d[1] = d.get(1, 0) - 1
+                K = -d.get(1, 0)
+                # bytes of the length field the pointer has already been moved over when this bound is evaluated
+                skipped = sum(const_value(a["r"]) or 0 for a in advances
+                              if (cfg.block_for(a) == cfg.block_for(c) and cfg.pos_of[a["id"]] < cfg.pos_of[c["id"]]) or
+                              (cfg.block_for(a) != cfg.block_for(c) and cfg.dominates(cfg.block_for(a), cfg.block_for(c))))
+                if d.get("R") == 1 and set(k2 for k2, v in d.items() if v) <= {"R", 1}:
+                    ok = K == 2 and skipped == 0
+                    why = "room for the 2-byte length field" if ok else "demands %d bytes where the length field needs 2" % K
+                elif d.get("R") == 1 and d.get("L") == -1 and set(k2 for k2, v in d.items() if v) <= {"R", "L", 1}:
+                    ok = K == 2 - skipped
+                    why = "remaining - %d >= length read" % K if ok else "demands length + %d bytes behind a pointer that skipped %d of the 2 length-field bytes" % (K, skipped)
+            res.check(ok, "C13-R6", key, c.get("loc"), why,
+                      "%s: %s — a field that the builder stored in full is reported as absent" % (g.name.replace(NS, ""), why))
+    return n
+
+
 def parity(fn, path, var_decl, upto_id):
     """Parity of local `var_decl` just before element `upto_id` on a path: 'even' | 'odd' | 'unknown'."""
     par = "unknown"
@@ -342,6 +410,10 @@ def run(ctx):
                         "the CFG), includes a terminator (+1), and the trailing write of length - str.size() bytes comes from a zero-initialised array")
     res.rule("C13-R5", "buffer sized before it is written: each builder's resize dominates its first write and its size expression depends on "
                         "sizeof(Header) and on every variable-length operand of the later copies")
+    res.rule("C13-R6", "readers accept what the builders write: in the length-prefixed readers (pointer parameter, end = data() + size()) every comparison of "
+                        "the remaining bytes is exactly `remaining >= 2` (room for the length field) or `remaining - k >= length` with k the part of the "
+                        "length field not yet skipped and `length` the value read, as linear forms — a stricter bound (padding demanded, off by one) "
+                        "rejects data that setData stored correctly")
     res.not_decided += ["getters return exactly the data supplied for every length; acceptance by the validator/decoder; arithmetic sufficiency of the size"]
 
     # ---- R1: generic Payload::setData<Header> instantiations and the forwarding builders
@@ -539,6 +611,8 @@ def run(ctx):
             res.check(not missing and has_sizeof, "C13-R5", "%s:size-operands" % name.replace(NS, ""), rs[0].get("loc"),
                       "size depends on sizeof(Header) and on every variable-length operand (%s)" % sorted(x.split(":")[1] for x in need),
                       "the resize amount does not depend on %s" % [x.split(":")[1] for x in missing])
+    n6 = rule_reader_exact(fb, res)
+    res.floor("C13-R6", 4, n6)
     res.floor("C13-R1", 15)
     res.floor("C13-R3", 14, n3)
     res.floor("C13-R4", 3)
